@@ -32,19 +32,23 @@ example : holdsReq ⟨false, [.data [97, 10, 98], .err []]⟩ [.inp [97], .resp 
 example : holdsReq ⟨false, [.data [97, 10, 98], .err []]⟩ [.inp [97], .resp 200] = false := by decide
 example : holdsReq ⟨false, [.data [97, 10, 98]]⟩ [.inp [97], .resp 200] = false := by decide
 
-/-- the oracle of a whole case (several requests, sequential or concurrent): the model's answer
-    `qs.map serve` with one source id per request and as many distinct ids as requests that made
-    `In` calls and read their body to the end satisfies `SpecC11.holds`. -/
-theorem http_holds_case (conc : Bool) (qs : List Req) (ended : List Bool) :
-    holds conc qs ended (qs.map serve) true (countLive ended (qs.map serve)) = true := by
+/-- the oracle of a whole case (several requests: sequential, concurrent, or advanced step by step
+    in any fixed order): the model's answer `qs.map serve` — every request served from its own reads
+    only — with one source id per request and the id report `sidWant` satisfies `SpecC11.holds`. -/
+theorem http_holds_case (mode : Nat) (qs : List Req) (ended : List Bool) :
+    holds mode qs ended (qs.map serve) true (sidWant mode ended (qs.map serve)) = true := by
   have h : allReqs qs (qs.map serve) = true := by
     induction qs with
     | nil => rfl
     | cons q qs ih => simp [allReqs, http_holds, ih]
   simp [holds, h]
 
-example : holds true [⟨false, [.data [97, 10]]⟩, ⟨false, [.data [98]]⟩] [true, true]
+example : holds 1 [⟨false, [.data [97, 10]]⟩, ⟨false, [.data [98]]⟩] [true, true]
     [[.inp [97], .resp 200], [.inp [98], .resp 200]] true 1 = false := by
+  decide
+-- a request that handed over a line of the other request's body (shared reader) is rejected
+example : holds 2 [⟨false, [.data [97, 10, 98, 10]]⟩, ⟨false, [.data [120, 10, 121, 10]]⟩] [true, true]
+    [[.inp [97], .inp [121], .resp 200], [.inp [120], .resp 200]] true 1 = false := by
   decide
 
 /-- **lines, any read sequence**: when no read fails, the events are exactly the lines of the body
